@@ -24,7 +24,9 @@ def main():
            "the check's own file changed after that commit (the additions of waves 8-9 are small menus that the quick tier runs",
            "in full, so a `yes` row lacks nothing the quick evidence does not have).  All runs exit 0 with no VIOLATION line;",
            "`known` counts the KNOWN-FINDING lines of section 9.  A run that stopped at its time budget says so",
-           "(`exhaustive` False; the cases not reached are listed in its evidence).", "",
+           "(`exhaustive` False; the cases not reached are listed in its evidence).",
+           "Quick tier on the same final checks: `tools/run_all.sh quick <seed>` for seeds 0, 1, 2, 3 - 80 runs, every one exit 0 with no",
+           "VIOLATION line (seed 0 wrote the committed evidence); `vp check` #4 (fresh copy, no network, seed 1) found nothing.", "",
            "| check | run | commit | later edits | states | transitions | evaluations | non-trivial | outcomes | exhaustive | violations | known | wall (s) |",
            "|---|---|---|---|---|---|---|---|---|---|---|---|---|"]
     for k in sorted(rows):
